@@ -29,6 +29,8 @@ type Checker struct {
 	// Unroll / UnrollFor: trip counts explored for loops over lists of structures (bit-level mode)
 	Unroll    []int
 	UnrollFor func(f *ssa.Function, elem types.Type) []int
+
+	batchParamsDone bool
 }
 
 // New creates the engine.
@@ -275,7 +277,76 @@ func guardOf(o *pathint.Outcome) string {
 
 // A1 — declared count = emitted bits: on every success path of every writer function the returned byte
 // count times 8 equals the number of bits handed to the BitsWriter.
+// BatchParams: a function that is handed both a *BitsWriter and a *BitsWriterBatch writes through the batch as if it wrapped that
+// writer (the interpreter attributes the batch's emissions to the writer parameter). Every static call site must make that true:
+// the batch argument is the address of a local whose only stored value is NewBitsWriterBatch(x), x being the value passed as the
+// writer. One obligation per call site; none when the package has no such function.
+func (c *Checker) BatchParams(r *report.Report) {
+	p := c.P
+	isNamedPtr := func(t types.Type, name string) bool {
+		pt, ok := t.(*types.Pointer)
+		return ok && ssau.IsNamed(pt.Elem(), load.AstikitPath, name)
+	}
+	for _, g := range p.SrcFuncs() {
+		wi, bi := -1, -1
+		for i, prm := range g.Params {
+			switch {
+			case isNamedPtr(prm.Type(), "BitsWriter"):
+				if wi >= 0 {
+					wi = -2
+				} else if wi == -1 {
+					wi = i
+				}
+			case isNamedPtr(prm.Type(), "BitsWriterBatch"):
+				bi = i
+			}
+		}
+		if bi < 0 {
+			continue
+		}
+		for _, f := range p.SrcFuncs() {
+			for _, ci := range ssau.Calls(f) {
+				if ci.Common().StaticCallee() != g {
+					continue
+				}
+				key := "batch-param/" + load.FuncName(g) + "/called-from/" + load.FuncName(f)
+				pos := p.Pos(ci.Pos())
+				args := ci.Common().Args
+				if wi < 0 || bi >= len(args) || wi >= len(args) {
+					r.Unknown("A1", key, pos, load.FuncName(g)+" takes a BitsWriterBatch but not exactly one BitsWriter: which writer the batch wraps is not known")
+					continue
+				}
+				al, ok := args[bi].(*ssa.Alloc)
+				why := ""
+				if !ok {
+					why = "the batch argument is not the address of a local variable"
+				} else {
+					n := 0
+					for _, rf := range *al.Referrers() {
+						st, isSt := rf.(*ssa.Store)
+						if !isSt || st.Addr != ssa.Value(al) {
+							continue
+						}
+						n++
+						mk, isCall := st.Val.(*ssa.Call)
+						if !isCall || ssau.CalleeName(&mk.Call) != load.AstikitPath+".NewBitsWriterBatch" || len(mk.Call.Args) != 1 {
+							why = "the batch is assigned something other than astikit.NewBitsWriterBatch(w)"
+						} else if mk.Call.Args[0] != args[wi] {
+							why = "the batch was created over " + mk.Call.Args[0].Name() + " but the writer passed along is " + args[wi].Name()
+						}
+					}
+					if n != 1 && why == "" {
+						why = fmt.Sprintf("the batch variable is assigned %d times", n)
+					}
+				}
+				r.Check(why == "", "A1", key, pos, "the batch passed to "+load.FuncName(g)+" was created by NewBitsWriterBatch over the very writer passed with it: what the callee writes through the batch goes to that writer", why)
+			}
+		}
+	}
+}
+
 func (c *Checker) A1(r *report.Report) {
+	c.BatchParams(r)
 	fs := c.WriterFuncs()
 	n := 0
 	for _, f := range fs {
@@ -476,6 +547,10 @@ type Pair struct {
 
 // A2 — calculator = writer, for every compatible pair of success outcomes.
 func (c *Checker) A2(r *report.Report, pairs []Pair) {
+	if !c.batchParamsDone {
+		c.batchParamsDone = true
+		c.BatchParams(r)
+	}
 	for _, pr := range pairs {
 		if pr.Calc == nil || pr.Writer == nil {
 			r.Unknown("A2", pr.Name, "", "calculator or writer function not found")
